@@ -174,6 +174,8 @@ fn long_prefix_family(ctx: &Ctx, cfg: &Cfg) -> JobOut {
         (0..len).map(|i| alpha[(i / 3) % 4]).collect(),
         (0..len).map(|i| if i == len / 2 { alpha[4] } else { alpha[(i * 7 + 1) % 4] }).collect(),
         (0..len).map(|i| if i % (n + 1) == n { alpha[5] } else { alpha[3 - i % 4] }).collect(),
+        // a tick-grid walk (ties, plateaus, runs): reset at every phase of a tie-rich history
+        super::refcmp::tick_walk(len, ctx.seed ^ 0x4, !cfg.kind.has_scalar(), true, false).as_ref().clone(),
     ];
     let conts: Vec<Vec<Op>> = vec![
         (0..n + 2).map(|i| cont_alpha[i % 3]).collect(),
